@@ -367,3 +367,90 @@ Proof.
     + apply Forall_flat_map. eapply Forall_impl; [|exact Fp]. intros x [_ H]. exact H.
     + apply Forall_flat_map. eapply Forall_impl; [|exact Ff]. intros x [_ H]. exact H.
 Qed.
+
+(* ---------------------------------------------------------------------------------------- *)
+(* C16_path_containment: the string test of _load_vars_from_file implies component-wise containment *)
+Definition slashy (x : str) : Prop := x = [] \/ exists x', x = c_sl :: x'.
+
+Lemma rend_slashy cs : slashy (rend cs).
+Proof. destruct cs as [|c cs]; [left; reflexivity | right; simpl; eexists; reflexivity]. Qed.
+Lemma app_slashy x y : slashy x -> slashy y -> slashy (x ++ y).
+Proof. intros [->|[x' ->]] Hy; simpl; [exact Hy | right; eexists; reflexivity]. Qed.
+
+Lemma comp_split (c c' X Y : str) :
+  ~ In c_sl c -> ~ In c_sl c' -> slashy X -> slashy Y -> c ++ X = c' ++ Y -> c = c' /\ X = Y.
+Proof.
+  revert c'. induction c as [|x c IH]; intros c' Hc Hc' HX HY E.
+  - destruct c' as [|y c']; [auto|]. simpl in E. destruct HX as [->|[X' ->]]; [discriminate|].
+    inversion E; subst. exfalso. apply Hc'. left. reflexivity.
+  - destruct c' as [|y c'].
+    + simpl in E. destruct HY as [->|[Y' ->]]; [discriminate|]. inversion E; subst.
+      exfalso. apply Hc. left. reflexivity.
+    + simpl in E. inversion E; subst.
+      destruct (IH c') as [-> ->]; auto.
+      * intros H. apply Hc. right. exact H.
+      * intros H. apply Hc'. right. exact H.
+Qed.
+
+Lemma rend_split b : forall p Z,
+  Forall wf_comp b -> Forall wf_comp p -> slashy Z -> rend p = rend b ++ Z -> is_prefix b p.
+Proof.
+  induction b as [|c b IH]; intros p Z Hb Hp HZ E.
+  - exists p. reflexivity.
+  - destruct p as [|c' p]; [simpl in E; discriminate|].
+    simpl in E. inversion E as [E']. rewrite <- app_assoc in E'.
+    inversion Hb as [|? ? [_ Hc] Hb']; subst. inversion Hp as [|? ? [_ Hc'] Hp']; subst.
+    apply comp_split in E'; auto; [|apply rend_slashy | apply app_slashy; [apply rend_slashy | exact HZ]].
+    destruct E' as [-> E']. destruct (IH p Z Hb' Hp' HZ E') as [rest ->].
+    exists rest. reflexivity.
+Qed.
+
+Lemma base_contains (b p : list str) :
+  Forall wf_comp b -> Forall wf_comp p ->
+  prefixb (render b ++ [c_sl]) (render p) = true \/ render p = render b -> is_prefix b p.
+Proof.
+  intros Hb Hp H. destruct b as [|c b]; [exists p; reflexivity|].
+  assert (Hc : c <> []) by (inversion Hb as [|? ? [H1 _] _]; exact H1).
+  change (render (c :: b)) with (rend (c :: b)) in H.
+  destruct p as [|c' p].
+  - exfalso. simpl in H. destruct H as [H|H].
+    + destruct c as [|x c]; [apply Hc; reflexivity | simpl in H; discriminate].
+    + simpl in H. inversion H as [H']. destruct c; [apply Hc; reflexivity | discriminate].
+  - change (render (c' :: p)) with (rend (c' :: p)) in H. destruct H as [H|H].
+    + apply prefixb_spec in H. destruct H as [r Hr]. rewrite <- app_assoc in Hr.
+      eapply rend_split; eauto. right. simpl. eauto.
+    + eapply (rend_split (c :: b) (c' :: p) []); eauto; [left; reflexivity | rewrite app_nil_r; exact H].
+Qed.
+
+Theorem path_containment E bases p :
+  wf_real (real E) -> path_allowed E bases (realpath E p) = true ->
+  exists b, In b bases /\ is_prefix (real E b) (real E p).
+Proof.
+  intros W H. unfold path_allowed in H. apply existsb_exists in H. destruct H as (b & Hin & H).
+  exists b. split; [exact Hin|]. apply base_contains; [apply W | apply W |].
+  apply orb_true_iff in H. destruct H as [H|H]; [left; exact H | right; apply str_eqb_eq in H; exact H].
+Qed.
+
+(* the gate in front of the execution of a vars file *)
+Lemma tpl_init_trace E tv ap vars o tr :
+  tpl_init E tv ap vars = (o, tr) ->
+  tr = [] \/
+  exists p, vars = Some p /\ tr = [EExec (real E p)] /\ (tv || env_on (e_tv E)) = true /\
+            match ap with Some bases => path_allowed E bases (realpath E p) = true | None => True end.
+Proof.
+  unfold tpl_init. destruct vars as [p|]; [|intros E0; inversion E0; auto].
+  destruct (tv || env_on (e_tv E)) eqn:G; simpl; [|intros E0; inversion E0; auto].
+  destruct ap as [bases|].
+  - destruct (path_allowed E bases (realpath E p)) eqn:PA; simpl; [|intros E0; inversion E0; auto].
+    destruct (loadable E p); intros E0; inversion E0; auto. right. exists p. auto.
+  - destruct (loadable E p); intros E0; inversion E0; auto. right. exists p. auto.
+Qed.
+
+Theorem exec_contained E tv bases p o tr q :
+  wf_real (real E) -> tpl_init E tv (Some bases) (Some p) = (o, tr) -> In (EExec q) tr ->
+  q = real E p /\ (tv || env_on (e_tv E)) = true /\ exists b, In b bases /\ is_prefix (real E b) q.
+Proof.
+  intros W E0 Hin. apply tpl_init_trace in E0. destruct E0 as [->|(p' & Ep & -> & G & PA)]; [destruct Hin|].
+  inversion Ep; subst p'. destruct Hin as [Hq|[]]. inversion Hq; subst q.
+  split; [reflexivity|]. split; [exact G|]. apply path_containment; assumption.
+Qed.
